@@ -147,7 +147,7 @@ func (r *runner) run(ctx context.Context, isStream bool, input any, opts ...Opti
 	}
 
 	// Extract and validate options for each node.
-	optMap, extractErr := extractOption(r.chanSubscribeTo, opts...)
+	optMap, extractErr := r.extractOption(opts...)
 	if extractErr != nil {
 		return nil, newGraphRunError(fmt.Errorf("graph extract option fail: %w", extractErr))
 	}
@@ -836,8 +836,36 @@ func (r *runner) initChannelManager(isStream bool) (*channelManager, error) {
 	return cm, nil
 }
 
+// extractOption distributes the call options to the nodes of this graph and validates the
+// options handed down to nested graphs, so that an invalid designation is reported whether or
+// not the sub graph it points into executes in this run.
+func (r *runner) extractOption(opts ...Option) (map[string][]any, error) {
+	optMap, err := extractOption(r.chanSubscribeTo, opts...)
+	if err != nil {
+		return nil, err
+	}
+	for name, c := range r.chanSubscribeTo {
+		if c.action == nil || c.action.checkOption == nil {
+			continue
+		}
+		if err = c.action.checkOption(optMap[name]...); err != nil {
+			return nil, fmt.Errorf("sub graph[%s]: %w", name, err)
+		}
+	}
+	return optMap, nil
+}
+
 func (r *runner) toComposableRunnable() *composableRunnable {
 	cr := &composableRunnable{
+		checkOption: func(opts ...any) error {
+			tos, err := convertOption[Option](opts...)
+			if err != nil {
+				return err
+			}
+			_, err = r.extractOption(tos...)
+			return err
+		},
+
 		i: func(ctx context.Context, input any, opts ...any) (output any, err error) {
 			tos, err := convertOption[Option](opts...)
 			if err != nil {
